@@ -72,7 +72,7 @@ def main():
                 os.remove(target)
                 rcb, ob = sh("go build ./... && go build -tags verif ./...", cwd=wt)
                 with_tests = stable_tests(wt)
-                sh("git checkout -- .", cwd=wt)
+                sh("git checkout -- . && git clean -fdq", cwd=wt)
                 res.update(demo_clean_pass=(rc1 == 0), demo_patched_pass=(rc2 == 0), builds=(rcb == 0), tests_unchanged=(with_tests == base_tests))
                 if rc2 != 0:
                     res["demo_patched_out"] = o2[-800:]
@@ -91,7 +91,7 @@ def main():
                         if rc == 2:
                             det[c]["tail"] = out[-1500:]
                 finally:
-                    sh("git -C /repo checkout -- .")
+                    sh("git -C /repo checkout -- . && git -C /repo clean -fdq")
             res["checks"] = det
             res["quiet"] = all(d["rc"] == 0 for d in det.values())
             dst = "/verif/benign/%s-%s" % (prop, v)
@@ -105,7 +105,7 @@ def main():
             print(json.dumps({k: res[k] for k in res if k != "checks"}), {c: d["rc"] for c, d in det.items()})
     finally:
         sh("git -C /repo worktree remove --force %s" % wt)
-        sh("git -C /repo checkout -- .")
+        sh("git -C /repo checkout -- . && git -C /repo clean -fdq")
     return 0
 
 
